@@ -615,3 +615,79 @@ def must_pass(body, starts, through, targets, removed_edges=()):
     Returns (ok, counterexample_path)."""
     p = find_path(body, starts, targets, removed_edges=removed_edges, avoid=through)
     return (p is None), p
+
+
+def _place_locals(pl):
+    """root local and index locals of a place"""
+    out = [pl[0]]
+    for e in pl[1:]:
+        if isinstance(e, str) and e.startswith("[_") and e.endswith("]") and e[2:-1].isdigit():
+            out.append(int(e[2:-1]))
+    return out
+
+
+def backward_slice(body, seeds, skip_call=None):
+    """Over-approximate backward *data* slice: the locals a seed local's value may be computed from (assignments,
+    partial assignments, call destinations <- all arguments, and calls that receive a `&mut` borrow of a sliced
+    local <- all their arguments).  Control dependence is not followed.
+    Returns (set of locals, [(bb, call terminator)] whose result or `&mut` effect is in the slice,
+    set of (param local, first projection) read by the slice)."""
+    dm = defs(body)
+    seen = set()
+    work = list(seeds)
+    calls_in = {}
+    reads = set()
+
+    def push(pl):
+        nonlocal work
+        work += _place_locals(pl)
+        if 0 < pl[0] <= body.d["argc"]:
+            reads.add((pl[0], next((e for e in pl[1:] if e != "*"), None)))
+        r0, f0 = origin(body, pl)
+        if 0 < r0 <= body.d["argc"]:
+            reads.add((r0, f0[0] if f0 else None))
+    mut_calls = []
+    for i, b in enumerate(body.blocks):
+        t = b["term"]
+        if t["k"] == "call":
+            for a in t["a"]:
+                pl = op_place(a)
+                if pl and (body.local_ty(pl[0]) or "").lstrip("(").startswith(("&mut", "std::pin::Pin<&mut", "*mut")):
+                    mut_calls.append((i, t))
+                    break
+    while work:
+        l = work.pop()
+        if l in seen:
+            continue
+        seen.add(l)
+        for d in dm.get(l, []):
+            if d[0] in ("assign", "partial"):
+                for o in rvalue_operands(d[2]):
+                    pl = op_place(o)
+                    if pl:
+                        push(pl)
+            elif d[0] == "call":
+                if skip_call and skip_call(callee(d[2]) or ""):
+                    continue
+                calls_in[d[1]] = d[2]
+                for a in d[2]["a"]:
+                    pl = op_place(a)
+                    if pl:
+                        push(pl)
+        for i, t in mut_calls:
+            if i in calls_in:
+                continue
+            roots = set()
+            for a in t["a"]:
+                pl = op_place(a)
+                if pl:
+                    roots.add(origin(body, pl)[0])
+                    roots.add(pl[0])
+            if l in roots:
+                calls_in[i] = t
+                for a in t["a"]:
+                    pl = op_place(a)
+                    if pl:
+                        push(pl)
+                        work.append(origin(body, pl)[0])
+    return seen, sorted(calls_in.items()), reads
